@@ -620,6 +620,87 @@ func c05BoundaryArith(c *core.C) {
 		}
 	}
 	c.Count("boundary_arith_programs", 4*len(vals)*len(vals))
+	// the ordering operators and == on the same pairs: the difference of two operands need not fit 64 bits
+	for _, op := range []int{int(ast.BLessThan), int(ast.BLessOrEqual), int(ast.BGreaterThan), int(ast.BGreaterOrEqual), int(ast.BEqual)} {
+		prog := c05Prog{}
+		for _, a := range vals {
+			for _, b := range vals {
+				prog.Facts = append(prog.Facts, ast.P("p", ast.Int(a), ast.Int(b)))
+			}
+		}
+		e := ast.Expr{ast.OV(x), ast.OV(y), ast.OB(op)}
+		prog.Rules = []ast.Rule{{Head: ast.P("q", x, y), Body: []ast.Pred{ast.P("p", x, y)}, Exprs: []ast.Expr{e}}}
+		prog.Queries = []ast.Rule{{Head: ast.P("ans", x, y), Body: []ast.Pred{ast.P("p", x, y)}, Exprs: []ast.Expr{e}}}
+		c05RunProg(c, "boundary-compare", prog)
+		// the same against a constant on either side
+		for _, k := range vals {
+			pk := c05Prog{}
+			for _, a := range vals {
+				pk.Facts = append(pk.Facts, ast.P("v", ast.Int(a)))
+			}
+			e1 := ast.Expr{ast.OV(x), ast.OV(ast.Int(k)), ast.OB(op)}
+			e2 := ast.Expr{ast.OV(ast.Int(k)), ast.OV(x), ast.OB(op)}
+			pk.Rules = []ast.Rule{{Head: ast.P("lo", x), Body: []ast.Pred{ast.P("v", x)}, Exprs: []ast.Expr{e1}}, {Head: ast.P("hi", x), Body: []ast.Pred{ast.P("v", x)}, Exprs: []ast.Expr{e2}}}
+			pk.Queries = []ast.Rule{{Head: ast.P("ans", x), Body: []ast.Pred{ast.P("v", x)}, Exprs: []ast.Expr{e1}}}
+			c05RunProg(c, "boundary-compare", pk)
+		}
+		c.Count("boundary_compare_programs", 1+len(vals))
+	}
+	c05SetJoins(c)
+}
+
+// c05SetJoins: sets are values, whatever order their members were written in (sets written with a
+// repeated member are outside what the reference decides, see ref/expr.go, and are not used here).
+// A variable bound at two body positions, a set constant in a body and a repeated variable inside
+// one atom must all match a fact that holds the same set spelled differently.
+func c05SetJoins(c *core.C) {
+	mk := func(k int, xs ...int) ast.Term {
+		t := ast.Term{K: ast.KSet}
+		for _, v := range xs {
+			switch k {
+			case 0:
+				t.Set = append(t.Set, ast.Int(int64(v)))
+			case 1:
+				t.Set = append(t.Set, ast.Str(fmt.Sprintf("m%d", v)))
+			default:
+				t.Set = append(t.Set, ast.Bytes([]byte{byte(v), 0xff}))
+			}
+		}
+		return t
+	}
+	spell := [][][]int{
+		{{3, 4, 5}, {5, 3, 4}, {4, 5, 3}},
+		{{1, 2}, {2, 1}, {2, 1}},
+		{{7}, {7}, {7}},
+		{{1, 2, 3, 4, 5, 6, 7, 8, 9}, {9, 8, 7, 6, 5, 4, 3, 2, 1}, {5, 1, 9, 2, 8, 3, 7, 4, 6}},
+	}
+	a, b, sv := ast.Var("a"), ast.Var("b"), ast.Var("s")
+	n := 0
+	for k := 0; k < 3; k++ {
+		for _, sp := range spell {
+			s0, s1, s2 := mk(k, sp[0]...), mk(k, sp[1]...), mk(k, sp[2]...)
+			other := mk(k, 100, 101)
+			prog := c05Prog{Facts: []ast.Pred{
+				ast.P("granted", ast.Str("b"), s0), ast.P("granted", ast.Str("c"), other),
+				ast.P("required", ast.Int(20), s1), ast.P("required", ast.Int(30), other),
+				ast.P("twice", s0, s1), ast.P("twice", s0, other),
+			}}
+			prog.Rules = []ast.Rule{
+				{Head: ast.P("ok", a, b), Body: []ast.Pred{ast.P("granted", a, sv), ast.P("required", b, sv)}},
+				{Head: ast.P("same", sv), Body: []ast.Pred{ast.P("twice", sv, sv)}},
+				{Head: ast.P("konst", a), Body: []ast.Pred{ast.P("granted", a, s2)}},
+				{Head: ast.P("reach", b), Body: []ast.Pred{ast.P("ok", a, b)}},
+			}
+			prog.Queries = []ast.Rule{
+				{Head: ast.P("ans", a, b), Body: []ast.Pred{ast.P("granted", a, sv), ast.P("required", b, sv)}},
+				{Head: ast.P("ans2", b), Body: []ast.Pred{ast.P("required", b, s2)}},
+				{Head: ast.P("ans3", sv), Body: []ast.Pred{ast.P("twice", sv, sv)}},
+			}
+			c05RunProg(c, "set-join", prog)
+			n++
+		}
+	}
+	c.Count("set_join_programs", n)
 }
 
 func c05Run(c *core.C) {
@@ -648,7 +729,7 @@ func c05Run(c *core.C) {
 func init() {
 	core.Register(&core.Prop{
 		ID:        "C05",
-		MinCounts: map[string]int{"tight_fact_limit_runs": 1000, "regex_pairs": 300},
+		MinCounts: map[string]int{"tight_fact_limit_runs": 1000, "regex_pairs": 300, "boundary_compare_programs": 70, "set_join_programs": 12},
 		Level:     "exploration",
 		Rule: "cases 0..420: bounded-exhaustive scope for the join enumerator - every body of 1-3 atoms over {p/1,q/2} with arguments {x,y,0,1} (8420 bodies) x every ordered duplicate-free fact list of length <=4 over six ground facts (517 lists): complete in thorough, a seeded 2% sample in quick. Later cases: 20 random programs each (untyped mixed-kind constants with repeated variables, typed schema programs with expression filters, recursive chain/cycle programs incl. mutual recursion), facts presented in shuffled order, World.Run and QueryRule compared with the reference least fixpoint R1 (naive iteration + back-tracking unification). thorough additionally repeats random programs under the race detector. " +
 			"Non-trivial = program whose least model is strictly larger than its input facts (distinct by program text), query with >=2 answers, exhaustive-scope point with >=1 answer.",
